@@ -35,6 +35,10 @@ FAULTS_FOR = {
 }
 
 
+# runtime environment picked up by Net(): set by the runners / sync_env
+ENV: dict = {"now": None, "sched": None}
+
+
 class RecordingSSLContext(ssl.SSLContext):
     """An ssl.SSLContext that remembers the ALPN list last set on it."""
 
@@ -209,7 +213,7 @@ class Net:
 
     def __init__(self, seed: int = 0) -> None:
         self.seed = seed
-        self.now: typing.Callable[[], float] = lambda: 1000.0
+        self.now: typing.Callable[[], float] = ENV["now"] or (lambda: 1000.0)
         self.endpoints: dict = {}  # (host, port) | ("uds", path) -> factory(net, target)
         self.transports: list[Transport] = []
         self.events: list[dict] = []
@@ -221,7 +225,8 @@ class Net:
         self.latency: typing.Callable[[str, int], float] | None = None
         self.segmentation = Segmentation("all")
         self.open_count = 0
-        self.sched = None  # set by the sync runner
+        self.sched = ENV["sched"]  # set by the sync runner
+        self.op_budget = 400_000
         self.write_after_server_close = "error"
         self.sleeps: list[float] = []
         self.log_events = True
@@ -251,6 +256,8 @@ class Net:
     def begin_op(self, kind: str, tr, **kw) -> tuple[int, str | None]:
         idx = self.op_index
         self.op_index += 1
+        if idx > self.op_budget:
+            raise SimHang(f"livelock: more than {self.op_budget} network operations")
         call = CALL.get()
         self.ops.append((idx, kind, tr.id if tr is not None else None, call))
         self.log(kind + ".call", tr=tr.id if tr is not None else None, op=idx, **kw)
@@ -305,6 +312,8 @@ class Net:
         except TLSFailure as exc:
             tr.do_close("backend:tls-failure")
             raise httpcore.ConnectError(str(exc))
+        except Exception as exc:
+            raise HarnessBug(f"endpoint raised {exc!r}") from exc
         tr.layers.append(info)
         self.log("start_tls.ret", tr=tr.id, op=idx, sni=server_hostname,
                  alpn_offered=info["alpn_offered"], alpn=info["alpn"], ctx=info["ctx"],
@@ -314,11 +323,18 @@ class Net:
     def do_write(self, tr: Transport, data: bytes, idx) -> None:
         tr.written += len(data)
         self.log("write.ret", tr=tr.id, op=idx, n=len(data), layer=len(tr.layers), data=data)
-        tr.handler.feed(tr, data)
+        try:
+            tr.handler.feed(tr, data)
+        except Exception as exc:  # an endpoint bug must never look like client behaviour
+            raise HarnessBug(f"endpoint raised {exc!r}") from exc
 
 
 class TLSFailure(Exception):
     pass
+
+
+class HarnessBug(BaseException):
+    """The simulator itself failed; never a verdict about httpcore."""
 
 
 class SimHang(BaseException):
